@@ -993,15 +993,27 @@ where
             None
         };
 
+        let mut property_validation = PropertyValidation::ValidWithoutTopicAlias;
         let (property_length, props) = if cursor < data_arc.len() {
             let (props, consumed) = Properties::parse(&data_arc[cursor..])?;
             cursor += consumed;
-            validate_publish_properties(&props)?;
+            property_validation = validate_publish_properties(&props)?;
             let prop_len = VariableByteInteger::from_u32(props.size() as u32).unwrap();
             (prop_len, props)
         } else {
             (VariableByteInteger::from_u32(0).unwrap(), Properties::new())
         };
+
+        // Same rules as the builder: no wildcard characters in a Topic Name [MQTT-3.3.2-2],
+        // and an empty Topic Name only together with a Topic Alias
+        if topic_name.as_str().contains('#') || topic_name.as_str().contains('+') {
+            return Err(MqttError::MalformedPacket);
+        }
+        if topic_name.as_str().is_empty()
+            && property_validation != PropertyValidation::ValidWithTopicAlias
+        {
+            return Err(MqttError::TopicAliasInvalid);
+        }
 
         let payload_len = data_arc.len() - cursor;
         let payload = if payload_len > 0 {
